@@ -297,3 +297,6 @@ def run(ctx, rep):
             rd += [i for i in g.all_insts() if i.op == 'load' and 'io->writer_error[' in g.expr(['i', i.id])]
         rep.check(bool(zero) and bool(rd), 'R-C13-6e', '%s engine: reported errors are cleared' % mode, P.fn(fns[0]).file, '%d report sites, %d clearing sites' % (len(rd), len(zero)) if zero else 'the accumulator is reported but never cleared: one write error is counted again at every later stripe (the ring hits the error limit, the single-thread engine does not)',
                   function=fns[-1], construct='writer_error cleared (%s)' % mode)
+    # per-disk verdict flags of the engines must not depend on the disks delivered before (reader completion order)
+    from .carried import carried_flags_rule
+    carried_flags_rule(P, rep, 'R-C13-9')
